@@ -208,3 +208,92 @@ def eos_oracle(genfile, pfx, kind, gamma=None, bigGamma=None, spec=None, rt=None
                               'returned': col, 'violated_identities': bad})
         return fails
     return oracle
+
+
+# -------------------------------------------------------------------------------------
+# Rankine-Hugoniot residuals at a discontinuity located on the real implementation
+RH_SCRIPT = r'''
+import importlib
+NAMES = ['density', 'velocity', 'pressure', 'specific_internal_energy']
+def get(s, r, t):
+    sol = s(np.array(r, dtype=float), t)
+    return {n: np.asarray(sol[n], dtype=float) for n in NAMES}
+
+def locate(s, t, lo, hi):
+    """largest relative density jump on a grid, refined by bisection"""
+    rs = np.linspace(lo, hi, 4001)
+    f = get(s, rs, t)['density']
+    j = np.abs(np.diff(f)) / (np.abs(f[:-1]) + np.abs(f[1:]) + 1e-300)
+    i = int(np.nanargmax(j))
+    if not (j[i] > 1e-3):
+        return None
+    a, b = rs[i], rs[i + 1]
+    fa, fb = f[i], f[i + 1]
+    for _ in range(60):
+        m = 0.5 * (a + b)
+        fm = get(s, [m], t)['density'][0]
+        if abs(fm - fa) > abs(fm - fb):
+            b, fb = m, fm
+        else:
+            a, fa = m, fm
+    return 0.5 * (a + b)
+
+def rh(s, t, lo, hi):
+    dt = 1e-4 * t
+    xs = [locate(s, tt, lo, hi) for tt in (t - dt, t, t + dt)]
+    if any(x is None for x in xs):
+        return {'error': 'no discontinuity found'}
+    speed = (xs[2] - xs[0]) / (2 * dt)
+    x = xs[1]
+    d = 1e-7 * max(abs(x), 1e-3)
+    L = {k: v[0] for k, v in get(s, [x - d], t).items()}
+    R = {k: v[0] for k, v in get(s, [x + d], t).items()}
+    def flux(S):
+        rho, u, p, e = S['density'], S['velocity'], S['pressure'], S['specific_internal_energy']
+        m = rho * (u - speed)
+        return [m, m * u + p, m * (e + u * u / 2) + p * u], [abs(m), abs(m * u) + abs(p), abs(m * (e + u*u/2)) + abs(p * u)]
+    fl, sl = flux(L)
+    fr, sr = flux(R)
+    out = {'x_shock': float(x), 'speed': float(speed), 'left': {k: float(v) for k, v in L.items()}, 'right': {k: float(v) for k, v in R.items()}}
+    for nm, a, b, c, d_ in zip(['mass', 'momentum', 'energy'], fl, fr, sl, sr):
+        out[nm] = float(abs(a - b) / (c + d_ + 1e-300))
+    return out
+
+def main(payload):
+    res = []
+    for c in payload:
+        mod = importlib.import_module(c['module'])
+        try:
+            s = getattr(mod, c['class'])(**c['params'])
+            res.append(rh(s, c['t'], c['lo'], c['hi']))
+        except Exception as ex:
+            res.append({'error': type(ex).__name__ + ': ' + str(ex)[:200]})
+    return res
+'''
+
+
+def rh_oracle(genfile, pfx, spec=None, tsampler=None, window=None, thresh=1e-4, n_quick=12, n_thorough=100):
+    """window(params, t) -> (lo, hi) position interval containing the single discontinuity"""
+    def oracle(rng, tier, reasons):
+        cj = H.load_gen(genfile)[pfx]
+        n = n_thorough if tier == 'thorough' else n_quick
+        cases = []
+        for _ in range(n):
+            p = H.sample_params(rng, cj, spec)
+            t = tsampler(rng, p) if tsampler else round(rng.uniform(0.2, 2.0), 5)
+            lo, hi = window(p, t) if window else (1e-3, 5.0)
+            cases.append({'module': cj['module'][:-3].replace('/', '.'), 'class': cj['class'], 'params': p, 't': t, 'lo': lo, 'hi': hi})
+        res = H.run_real(RH_SCRIPT, cases)
+        fails = []
+        for c, o in zip(cases, res):
+            if 'error' in o:
+                continue
+            worst = max(o['mass'], o['momentum'], o['energy'])
+            if worst > thresh:
+                fails.append({'solver': c['class'], 'module': c['module'], 'params': c['params'], 't': c['t'],
+                              'located_discontinuity': o['x_shock'], 'speed_from_neighbouring_times': o['speed'],
+                              'left_state': o['left'], 'right_state': o['right'],
+                              'normalised_jump_defects': {k: o[k] for k in ('mass', 'momentum', 'energy')}})
+        fails.sort(key=lambda f: -max(f['normalised_jump_defects'].values()))
+        return fails
+    return oracle
